@@ -45,22 +45,29 @@ def findBlank : Bytes → Nat → Option (Nat × Nat)
       | [] => none
     else findBlank rest (k + 1)
 
-/-- `blankLineSplitter.scan` (RS=""), as repaired by "fix: RT for RS=\"\" doesn't depend on input chunking" -/
-def splitBlank : SplitFn := fun d eof =>
-  if eof = true ∧ d = [] then .more else
-  let lead := (d.takeWhile isNL).length
-  if lead ≥ d.length then .skip lead else
-  let body := d.drop lead
+/-- the part of `blankLineSplitter.scan` after the leading newlines were skipped: `body` starts with a non-newline byte;
+advance and positions are relative to `body` -/
+def blankBody (body : Bytes) (eof : Bool) : Decision :=
   match findBlank body 0 with
   | some (e, a) =>
     let i := a + ((body.drop a).takeWhile isNL).length
     if i ≥ body.length ∧ eof = false then .more
-    else .token (lead + i) (dropCR (body.take e)) ((body.drop e).take (i - e))
+    else .token i (dropCR (body.take e)) ((body.drop e).take (i - e))
   | none =>
     if eof then
       let tok := dropCR (dropLF body)
-      .token d.length tok (body.drop tok.length)
+      .token body.length tok (body.drop tok.length)
     else .more
+
+def shift (k : Nat) : Decision → Decision
+  | .token n r t => .token (k + n) r t
+  | d => d
+
+/-- `blankLineSplitter.scan` (RS=""), as repaired by "fix: RT for RS=\"\" doesn't depend on input chunking" -/
+def splitBlank : SplitFn := fun d eof =>
+  if eof = true ∧ d = [] then .more else
+  let lead := (d.takeWhile isNL).length
+  if lead ≥ d.length then .skip lead else shift lead (blankBody (d.drop lead) eof)
 
 /-- `regexSplitter.scan` over an abstract matcher `m` (= `(*regexp.Regexp).FindIndex` after `Longest()`), as repaired by
 "fix: regex RS reads more input when a match touches the end of the buffer". -/
